@@ -233,25 +233,27 @@ impl Harness for C04 {
             jobs,
             budget_s: if t { 2400 } else { 40 },
             case_deadline_ms: 20_000,
+            // about a tenth of what the quick tier counts at seed 0
             floors: vec![
-                ("tie_between_neighbours", 1000),
-                ("query_coincides_with_a_point", 1000),
-                ("knn_not_a_prefix_of_data_order", 1000),
-                ("data_with_duplicates", 1000),
-                ("data_all_identical", 50),
-                ("data_single_point", 50),
-                ("err_k_zero", 1000),
-                ("err_k_gt_n", 1000),
-                ("err_radius_nonpositive", 1000),
-                ("radius_equals_a_distance", 1000),
-                ("estimator_k_zero_rejected", 100),
-                ("estimator_k_gt_n_rejected", 100),
-                ("est_rows_with_several_valid_neighbour_sets", 1000),
-                ("cls_rows_with_plurality_tie", 1000),
-                ("est_rows_exact_match_takes_all_weight", 1000),
-                ("heap_root_replaced", 100),
+                ("tie_between_neighbours", 300_000),
+                ("query_coincides_with_a_point", 50_000),
+                ("knn_not_a_prefix_of_data_order", 300_000),
+                ("data_with_duplicates", 200_000),
+                ("data_all_identical", 800),
+                ("data_single_point", 200),
+                ("err_k_zero", 800_000),
+                ("err_k_gt_n", 800_000),
+                ("err_radius_nonpositive", 2_000_000),
+                ("radius_equals_a_distance", 2_000_000),
+                ("estimator_k_zero_rejected", 100_000),
+                ("estimator_k_gt_n_rejected", 100_000),
+                ("est_rows_with_several_valid_neighbour_sets", 2_000_000),
+                ("cls_rows_with_plurality_tie", 500_000),
+                ("est_rows_exact_match_takes_all_weight", 500_000),
+                ("heap_root_replaced", 150),
                 ("heap_element_equal_to_root_arrived", 100),
-                ("heap_peek_mut_then_heapify", 100),
+                ("heap_peek_mut_then_heapify", 40),
+                ("heap_plain_heapify", 60),
             ],
             bounds: json!({
                 "lattice_3x3": format!("every sequence of 1..{} points x 25 half-step queries, all 4 metrics; Manhattan up to {} points; Euclidean up to {} points; f32 up to {} points", lat2_all_metrics, lat2_manhattan, lat2_euclid, if t { 5 } else { 3 }),
